@@ -135,7 +135,7 @@ Definition hdm_core (p : hdm_params) (s : hst) (X : list hrow) (boot : F) : hst 
   let hs := all_hists (h_k p) (h_bins s) (h_ref s) X in
   let fds := feat_dists hs in
   let cur := mean_dist (h_k p) fds in
-  let feps := if (1 <? total)%Z then Some (zip_sub fds (h_prev_fd s)) else h_feps s in
+  let feps := if (1 <? since)%Z then Some (zip_sub fds (h_prev_fd s)) else h_feps s in
   let has_eps := (2 <=? since)%Z in
   let eps_a := if boot_phase p since then h_eps s ++ [boot] else h_eps s in
   let ce := fabs (cur - h_prev s) * f1 in
@@ -208,18 +208,26 @@ Definition hdm_apply (p : hdm_params) (s : hst) (o : hop) : hst :=
 Definition hdm_run (p : hdm_params) (s : hst) (ops : list hop) : hst := fold_left (hdm_apply p) ops s.
 
 (** what a user reads after a call: state, counters, the distance / epsilon / threshold computed by
-    this call, reference size and content, the epoch's epsilon list and running total *)
+    this call, reference size and content, the epoch's epsilon list and running total, and
+    feature_epsilons / feature_info.  The code assigns feature_epsilons only from the second batch of
+    an epoch on and otherwise LEAVES THE ATTRIBUTE UNCHANGED (the model mirrors that: [h_feps] keeps
+    its previous value, a new detector has [None]); the observation therefore reads it only once it
+    has been computed in the current epoch, and feature_info only while drift is reported. *)
 Record hobs := mk_hobs {
   ho_ds : dstate; ho_total : Z; ho_since : Z;
   ho_cur : option F; ho_eps : option F; ho_beta : option F;
-  ho_ref_n : Z; ho_ref : list hrow; ho_epsl : list F; ho_tot : F
+  ho_ref_n : Z; ho_ref : list hrow; ho_epsl : list F; ho_tot : F;
+  ho_feps : option (list F);                 (* feature_epsilons, once computed in the current epoch *)
+  ho_finfo : option (list F * list F * Z)    (* feature_info, while drift is reported *)
 }.
 Definition hobserve (s : hst) : hobs :=
   mk_hobs (h_ds s) (h_total s) (h_since s) (h_cur_now s) (h_eps_now s) (h_beta_now s)
-          (h_ref_n s) (h_ref s) (h_eps s) (h_tot s).
+          (h_ref_n s) (h_ref s) (h_eps s) (h_tot s)
+          (if (2 <=? h_since s)%Z then h_feps s else None)
+          (if is_drift (h_ds s) then h_finfo s else None).
 Definition hshift (k : Z) (o : hobs) : hobs :=
   mk_hobs (ho_ds o) (ho_total o + k)%Z (ho_since o) (ho_cur o) (ho_eps o) (ho_beta o)
-          (ho_ref_n o) (ho_ref o) (ho_epsl o) (ho_tot o).
+          (ho_ref_n o) (ho_ref o) (ho_epsl o) (ho_tot o) (ho_feps o) (ho_finfo o).
 
 Fixpoint hdm_trace (p : hdm_params) (s : hst) (ops : list hop) : list hobs :=
   match ops with
